@@ -5374,10 +5374,26 @@ func (c *BytecodeCompiler) compileStatementsOk(collection []ast.StatementNode) b
 			if !isLast {
 				c.emit(s.Location().EndPos.Line, bytecode.POP)
 			}
+		case expressionCompiledWithoutResult:
+			// execution continues after a `yield` once the generator is resumed,
+			// so when it is the last statement the block still has to produce a value
+			if isLast && statementIsYield(s) {
+				c.emit(s.Location().EndPos.Line, bytecode.NIL)
+			}
 		}
 	}
 
 	return true
+}
+
+// Checks whether the statement consists of a `yield` expression
+func statementIsYield(s ast.StatementNode) bool {
+	stmt, ok := s.(*ast.ExpressionStatementNode)
+	if !ok {
+		return false
+	}
+	_, ok = stmt.Expression.(*ast.YieldExpressionNode)
+	return ok
 }
 
 func (c *BytecodeCompiler) removeOpcode() {
